@@ -311,15 +311,14 @@ def run(chk):
 
     # ---------------- authenticator side
     Tm = flow.Terms(p, mc)
-    pk_ag = find_aggs(mc, "Passkey")
+    from .common import saved_passkey
+    pf, pb = saved_passkey(p, mc, Tm, N_reg)   # the record as it is stored (one literal or member assignments alike)
     acd = names.calls_to(mc, "AttestedCredentialData::new")
     adn = names.calls_to(mc, "AuthenticatorData::new")
-    if not chk.require("R3 ids", "R3|make_credential|sites", len(pk_ag) == 1 and len(acd) == 1 and len(adn) == 1, where(mc), "Passkey / AttestedCredentialData::new / AuthenticatorData::new sites not found"):
+    if not chk.require("R3 ids", "R3|make_credential|sites", pf is not None and len(acd) == 1 and len(adn) == 1, where(mc), "saved Passkey record / AttestedCredentialData::new / AuthenticatorData::new sites not found"):
         return
-    pb, pi, prv = pk_ag[0]
-    pf = {k: flow.simplify_term(Tm.operand(o, pb, pi)) for k, o in zip(prv["fields"], prv["ops"])}
     ab, at = acd[0]
-    aargs = [flow.simplify_term(Tm.operand(x, ab, "t")) for x in at["args"]]
+    aargs = [N_reg.norm(Tm.operand(x, ab, "t")) for x in at["args"]]
     rv_ok = is_call(pf["credential_id"], "random_vec") and pf["credential_id"] == aargs[1] and pf["credential_id"][2][0] == ("field", ("upvar", 0), "credential_id_length")
     chk.ob("R3 ids", "R3|make_credential|one-random-id", rv_ok, where(mc, ab), "stored id = %s ; attested id = %s" % (flow.term_str(pf["credential_id"]), flow.term_str(aargs[1])))
     # R4
@@ -363,10 +362,19 @@ def run(chk):
         N = normal.Normalizer(p, S)
         rws = normal.rows(S, ca, N)
         # "the element": found by Iterator::find over the request list, or yielded by next() of a loop over it
+        projected = [False]
+
         def list_iter(x):
             x = flow.iterator_source(x)
-            while isinstance(x, tuple) and len(x) == 4 and x[0] == "call" and x[2] and (names.is_(x[1], "IntoIterator::into_iter") or x[1].endswith("::iter")):
-                x = x[2][0]
+            while isinstance(x, tuple) and len(x) == 4 and x[0] == "call" and x[2]:
+                if names.is_(x[1], "IntoIterator::into_iter") or x[1].endswith("::iter") or names.is_(x[1], "Iterator::copied") or names.is_(x[1], "Iterator::cloned"):
+                    x = x[2][0]
+                elif names.is_(x[1], "Iterator::map") and len(x[2]) == 2 and closure_ret(p, x[2][1]) == ("field", ("param", 2), "alg"):
+                    # the list is first projected to its algorithm identifiers: the element *is* the alg
+                    projected[0] = True
+                    x = x[2][0]
+                else:
+                    break
             return x == ("param", 2)
         is_find = lambda x: (is_call(x, "Iterator::find") or is_call(x, "slice::Iter::find")) and list_iter(x[2][0])
         is_next = lambda x: is_call(x, "Iterator::next") and list_iter(x[2][0])
@@ -378,8 +386,8 @@ def run(chk):
         def membership(t, elem):
             """t tests `elem.alg ∈ self.algs`: contains(algs, alg) or any(algs, |s| s == alg)"""
             has_algs = lambda y: has(y, lambda z: isinstance(z, tuple) and len(z) == 3 and z[0] == "field" and z[2] == "algs")
-            alg = ("field", ("payload", elem), "alg") if elem is not None else None
-            is_alg = (lambda y: y == alg) if alg is not None else (lambda y: isinstance(y, tuple) and len(y) == 3 and y[0] == "field" and y[2] == "alg")
+            alg = (("payload", elem) if projected[0] else ("field", ("payload", elem), "alg")) if elem is not None else None
+            is_alg = (lambda y: y == alg) if alg is not None else (lambda y: y == ("param", 2) if projected[0] else (isinstance(y, tuple) and len(y) == 3 and y[0] == "field" and y[2] == "alg"))
             for x in sub(t):
                 if (is_call(x, "slice::contains") or is_call(x, "Vec::contains")) and has_algs(x[2][0]) and has(x[2][1], is_alg):
                     return True
@@ -403,7 +411,7 @@ def run(chk):
             else:
                 # loop form: the Ok row is taken on the true edge of the membership test of the yielded element
                 pred_ok = all(any(membership(N.inline(t), fnd) and flow.bool_atom(t, l)[1] is True for t, l, f, w in o.conds) for o in oks)
-            sel_ok = all(dict(o.value[3]).get("0") == ("field", ("payload", fnd), "alg") and any(flow.asserts_ok(t, l, lambda x: x == fnd) for t, l, f, w in o.conds) for o in oks)
+            sel_ok = all(dict(o.value[3]).get("0") == (("payload", fnd) if projected[0] else ("field", ("payload", fnd), "alg")) and any(flow.asserts_ok(t, l, lambda x: x == fnd) for t, l, f, w in o.conds) for o in oks)
             err_ok = bool(errs) and all(has(o.value, lambda x: isinstance(x, tuple) and len(x) == 4 and x[0] == "agg" and x[2] == "UnsupportedAlgorithm") and any(flow.asserts_fail(t, l, is_elem) for t, l, f, w in o.conds) for o in errs)
         chk.ob("R6 algorithm", "R6|choose_algorithm|forward-first-match", fnd is not None and not bad and pred_ok and sel_ok and err_ok, where(ca),
                "table: %s ; reversing adaptors: %s ; predicate = membership in self.algs: %s ; Ok = found.alg: %s ; Err(UnsupportedAlgorithm) iff nothing found: %s"
@@ -418,8 +426,7 @@ def run(chk):
     # R7
     saves = names.calls_to(mc, "CredentialStore::save_credential")
     in_cycle = bool(saves) and saves[0][0] in mc.reachable(mc.succs(saves[0][0]), follow_yield_drop=False)
-    sv_arg = flow.simplify_term(Tm.operand(saves[0][1]["args"][1], saves[0][0], "t")) if saves else None
-    chk.ob("R7 one credential", "R7|make_credential|one-save-of-that-passkey", len(saves) == 1 and not in_cycle and sv_arg is not None and sv_arg[0] == "agg" and dict(sv_arg[3]).get("credential_id") == pf["credential_id"], where(mc, saves[0][0]) if saves else where(mc),
+    chk.ob("R7 one credential", "R7|make_credential|one-save-of-that-passkey", len(saves) == 1 and not in_cycle and pf is not None and "credential_id" in pf, where(mc, saves[0][0]) if saves else where(mc),
            "save_credential sites: %d, inside a cycle: %s, saved value is the constructed Passkey" % (len(saves), in_cycle))
     # R8
     CIL = "passkey_authenticator::authenticator::CredentialIdLength"
